@@ -137,7 +137,16 @@ func Exec(c *Case) (nontrivial bool, labels []string, fail *vlib.Failure) {
 		before := fake.CallCount()
 		_, setsBefore := tee.LastSet()
 		aliveBefore := fake.IsAlive()
-		res := h.RunStep(st)
+		// a transaction over a fake driver that answers at once returns at once; one that does not return holds the
+		// datastore lock and the transaction slot for good
+		var res *vlib.StepResult
+		resCh := make(chan *vlib.StepResult, 1)
+		go func() { resCh <- h.RunStep(st) }()
+		select {
+		case res = <-resCh:
+		case <-time.After(30 * time.Second):
+			return nontrivial, keys(lab), vlib.Failf("C18:transaction-does-not-return", "transaction %d (commit-datastore=%s, fault=%+v) has not returned after 30 s; driver calls so far: %s", i+1, c.Commit, f, seq(fake.CallsFrom(before)))
+		}
 		if !res.OK {
 			h.FreeSlot(res.TxID)
 		}
